@@ -1208,8 +1208,18 @@ def eval_revisions(lab: "Lab", ctx, case) -> typing.List[Fail]:
         d.mkdir(exist_ok=True)
         for n in names:
             (d / f"{n}.j2").write_text(f"user:{n}:rev{ri}")
-        gen = nunavut.jinja.DSDLCodeGenerator(lab.ns["c"], templates_dir=d)
         exp = nearest(name, set(names))
+        if ri > 0 and prev != set(names):
+            # the generator created for the PREVIOUS revision is asked again: which template is named after the nearest class is a
+            # function of the templates that exist at the time of the lookup, not of what an earlier lookup on the object saw
+            r_old = lookup(lab, gen, name)
+            stem_old = None if r_old is None else r_old[: -len(".j2")]
+            ctx.event("A.revision_lookup_on_the_earlier_generator")
+            if not ((stem_old in exp) if exp else stem_old is None):
+                res.append(("A|same-generator-ignores-revised-templates-directory",
+                            f"class {name}: the templates directory now holds {names} (before: {sorted(prev or [])}); the generator created before the revision "
+                            f"resolved to {r_old!r}, nearest is {sorted(exp) or None}"))
+        gen = nunavut.jinja.DSDLCodeGenerator(lab.ns["c"], templates_dir=d)
         for _ in range(case["lookups_per_revision"]):
             r = lookup(lab, gen, name)
             stem = None if r is None else r[: -len(".j2")]
